@@ -198,6 +198,30 @@ theorem C16_autoflow_first (sizes : List Nat) (tmpl : Template) (fuel : Nat) (s 
   obtain ⟨h1, h2, h3⟩ := C16_first_post matchesQ _ tmpl fuel (canonicalize s) r (WF_maskSched hwf) matchesQ_opsOnly hch h j hj1 hjn
   exact ⟨h1, h2 _ (by simp), h2 _ (by simp), h3⟩
 
+/-! ### accelerator templates as tables -/
+
+/-- Every template `SNAXGEMMXAccelerator.get_template` can return (any array geometry, any kernel chain) is
+rectangular (every pattern row has one entry per template dim), has 2, 3 or 4 operands and carries the array
+geometry as bounds: the `Template` hypotheses the C16 theorems are applied to are established by the table. -/
+theorem gemmxTemplate_wf (m n k : Nat) (body : List KOp) (t : Template) (h : gemmxTemplate m n k body = .ok t) :
+    (∀ o ∈ t.ops, ∀ r ∈ o.rows, r.length = t.n) ∧
+    (t.ops.length = 2 ∨ t.ops.length = 3 ∨ t.ops.length = 4) ∧
+    (t.bounds = [some m, some n, some k] ∨ t.bounds = [some m, some k]) := by
+  unfold gemmxTemplate at h
+  repeat' split at h
+  all_goals first
+    | (cases h; done)
+    | (injection h with h; subst h; simp [opMK, opKN, opMN, op2, Template.n])
+
+/-- the snax_alu template: three one-row operands on one 4-lane dim -/
+theorem aluTemplate_wf : (∀ o ∈ aluTemplate.ops, ∀ r ∈ o.rows, r.length = aluTemplate.n) ∧ aluTemplate.ops.length = 3 ∧
+    templateBound aluTemplate 1 = 4 := by decide
+
+/-- the default matmul template, as used by the pass cases -/
+example : gemmxTemplate 8 8 8 [.qmac] = .ok ⟨[some 8, some 8, some 8], [opMK, opKN, opMN]⟩ := by decide
+example : gemmxTemplate 8 8 8 [.qmac, .add, .rescale] = .ok ⟨[some 8, some 8, some 8], [opMK, opKN, opMN, opMN]⟩ := by decide
+example : gemmxTemplate 8 8 8 [.qmac, .add, .add] = .error .runtime := by decide
+
 /-- **Soundness of the exact matcher**: whenever `matchesQ` accepts, template and schedule have the same
 number of operands, the schedule has at least the template's dims, and for every operand the template's
 (non-broadcast) rows and the schedule's rows restricted to the template dims span the same rational
